@@ -204,6 +204,10 @@ func main() {
 	debug.SetMaxStack(*maxStack)
 	logger.ProgressLogger.SetOutput(io.Discard)
 	logger.WarningLogger.SetOutput(warnings)
+	if os.Getenv("VERIFSIM_QUIET") != "" {
+		// another process-wide setting that is not an input of a render: warnings discarded
+		logger.WarningLogger.SetOutput(io.Discard)
+	}
 
 	in := bufio.NewReaderSize(os.Stdin, 1<<20)
 	out := bufio.NewWriter(os.Stdout)
